@@ -193,11 +193,10 @@ def r2_save_mutate_restore(ctx, rep, R='C18.R2'):
                 getters = CALL_MUTATORS[canon] if kind == 'call' else (canon,)
                 construct = '%s (%s via %s)' % (canon, cls.qualname, sf.qualname)
                 saved = _saved_attrs(ctx, sf, getters, consts)
-                # module-level capture of the same attribute (osettrace = sys.settrace)
-                modsaved = {k: v for k, v in consts.items()
-                            if m.resolve_dotted(cls.module, dotted(v) or '') in getters}
+                # a module-level capture (x = sys.settrace at import time) is NOT a save: the value
+                # before the run may differ from the one at import (nested or repeated runs)
                 before = {a: g for a, (g, sn) in saved.items() if sn.lineno < node.lineno}
-                okb = bool(before) or bool(modsaved)
+                okb = bool(before)
                 rep.check(okb, R, construct + ': previous value saved first',
                           'the previous value of %s is not saved (from %s) before it is changed in %s'
                           % (canon.split('.')[-1], '/'.join(getters), sf.qualname),
@@ -216,8 +215,6 @@ def r2_save_mutate_restore(ctx, rep, R='C18.R2'):
                             val = val.value
                         d = dotted(val) if val is not None else None
                         if d and d.startswith('self.') and d[5:] in before:
-                            restored = True
-                        if d in modsaved:
                             restored = True
                 rep.check(restored, R, construct + ': restored from the saved value in a teardown hook',
                           ('%s is reset in %s, but not to the value saved before the run (a constant or '
